@@ -22,6 +22,7 @@ RULE = (
     "nested site's node id in outer.exec_nodes is '<dotted path of enclosing DAG names>.<...>' while no top-level site "
     "id contains that prefix. non-trivial = an explicit argument is supplied for a defaulted inner parameter with a "
     "value different from the default, or nesting depth >= 2, or a function name is used at two levels."
+    " Round 8-10 additions: family 'shared-inner' (one inner DAG object set up / called / nested in several outer DAGs one after the other, with an uncopyable setup result); inner DAGs may hand back a required parameter; debug logging on."
 )
 ASSUMPTIONS = [
     "the same inner DAG object is called once per outer description; inner DAGs return node results (documented limits)",
